@@ -587,6 +587,11 @@ pub fn op_alphabet() -> Vec<(&'static str, Op)> {
         ("CurveTo", Op::CurveTo { c1: p(9.0, 9.0), c2: p(5.0, 6.0), p: p(7.0, 8.0) }),
         ("CurveTo:c1=current", Op::CurveTo { c1: p(1.0, 2.0), c2: p(5.0, 6.0), p: p(7.0, 8.0) }),
         ("CurveTo:c2=p", Op::CurveTo { c1: p(0.5, 0.25), c2: p(7.0, 8.0), p: p(7.0, 8.0) }),
+        // first control point equal to a point an earlier operation of the alphabet leaves behind (LineTo's point, a curve's end point,
+        // Rect's corner): whether the writer may use the v shorthand depends on which of them is the current point
+        ("CurveTo:c1=lineto", Op::CurveTo { c1: p(3.0, 4.5), c2: p(5.0, 6.0), p: p(7.0, 8.0) }),
+        ("CurveTo:c1=curve-end", Op::CurveTo { c1: p(7.0, 8.0), c2: p(5.0, 6.0), p: p(9.0, 9.5) }),
+        ("CurveTo:c1=rect-corner", Op::CurveTo { c1: p(0.0, 1.0), c2: p(5.0, 6.0), p: p(7.0, 8.0) }),
         ("Rect", Op::Rect { rect: ViewRect { x: 0.0, y: 1.0, width: 10.0, height: 2147483648.0 } }),
         ("Close", Op::Close),
         ("Stroke", Op::Stroke),
@@ -736,6 +741,8 @@ fn engine_sequences(tier: Tier, tally: &mut Tally) {
         vec!["Close", "Stroke", "FillAndStroke", "FillAndStroke*", "Fill"],
         vec!["WordSpacing", "CharSpacing", "TextNewline", "TextDraw", "Leading", "Leading:-3", "MoveTextPosition", "MoveTextPosition:3,3", "MoveTextPosition:-14,10"],
         vec!["MoveTo", "LineTo", "CurveTo", "CurveTo:c1=current", "CurveTo:c2=p", "Rect", "Close"],
+        // path construction mixed with the painting operators that fuse with Close (s, b, b*): current point across a painted path
+        vec!["MoveTo", "LineTo", "Rect", "Close", "Stroke", "FillAndStroke", "CurveTo:c1=current", "CurveTo:c1=lineto", "CurveTo:c1=curve-end", "CurveTo:c1=rect-corner"],
     ];
     let maxlen = if tier.thorough() { 6 } else { 5 };
     for sub in subs {
@@ -838,7 +845,7 @@ pub fn run(tier: Tier, _seed: u64, tally: &mut Tally) -> CheckMeta {
     CheckMeta {
         prop: "C08",
         level: "model_checking",
-        rule: format!("operator table: {} operator instances (every keyword of ISO 32000-1 Table A.1 with 1-8 operand sets) parsed alone and in every ordered pair ({} programs) against a reference interpreter that tracks the current point per the specification; serialize_ops -> parse_ops over all sequences of length <= 3 of a {}-symbol Op alphabet ({} sequences) and all sequences of length 4..{} over three shorthand-sensitive sub-alphabets; operand value pairs over 10 boundary reals x 9 shapes. Comparison is structural (canonical text; -0 == 0; int == real).", n_tab, n_tab * n_tab, n_alpha, n_alpha + n_alpha * n_alpha + n_alpha * n_alpha * n_alpha, if tier.thorough() { 6 } else { 5 }),
+        rule: format!("operator table: {} operator instances (every keyword of ISO 32000-1 Table A.1 with 1-8 operand sets) parsed alone and in every ordered pair ({} programs) against a reference interpreter that tracks the current point per the specification; serialize_ops -> parse_ops over all sequences of length <= 3 of a {}-symbol Op alphabet ({} sequences) and all sequences of length 4..{} over four shorthand-sensitive sub-alphabets; operand value pairs over 10 boundary reals x 9 shapes. Comparison is structural (canonical text; -0 == 0; int == real).", n_tab, n_tab * n_tab, n_alpha, n_alpha + n_alpha * n_alpha + n_alpha * n_alpha * n_alpha, if tier.thorough() { 6 } else { 5 }),
         assumptions: vec!["the serializer rejects inline images with an error (outside 'sequences the serializer accepts'); any other serialisation error is a violation".into(), "BX/EX are state markers without an operation".into()],
         exhaustive: true,
         bounds: json!({"sequence_len": 3, "sub_alphabet_len": if tier.thorough() { 6 } else { 5 }}),
